@@ -19,42 +19,47 @@ Proof. vm_compute. reflexivity. Qed.
 Definition plain (b : N) : bool := (b <? 128) && negb (b =? 27) && negb (b =? 7) && negb (b =? 59).
 
 Definition chan_ok (form : cform) (upper : bool) (v : N) : bool :=
-  (match form with Rgb1 => negb (v mod 17 =? 0) | _ => false end)
+  negb (v <? chan_bound form)
   || (forallb (fun b => plain b && negb (b =? 47)) (chan form upper v)
       && match form with
-         | Hash2 => match hex_value (chan form upper v) 0 with Some x => x =? v | None => false end
+         | Hash2 => match hex_value (chan form upper v) 0 with Some x => (x =? v) && (scale8 Hash2 v =? v) | None => false end
                     && Nat.eqb (length (chan form upper v)) 2
-         | _ => match parse_component (chan form upper v) with Some x => x =? v | None => false end
+         | _ => match parse_component (chan form upper v) with Some x => x =? scale8 form v | None => false end
          end).
 
+(* every channel value of every width: 16 + 256 + 4096 + 65536 + 256 values, both letter cases *)
 Lemma chan_sweep :
-  forallb (fun form => forallb (fun upper => sweep1 256 (chan_ok form upper)) [true; false])
+  forallb (fun form => forallb (fun upper => sweep_pow 16 0 (chan_ok form upper)) [true; false])
           [Rgb1; Rgb2; Rgb3; Rgb4; Hash2] = true.
 Proof. vm_compute. reflexivity. Qed.
 
+Lemma chan_bound_le form : chan_bound form <= 65536.
+Proof. destruct form; vm_compute; discriminate. Qed.
+
 Lemma chan_spec form upper v :
-  v < 256 -> (form = Rgb1 -> v mod 17 = 0) ->
+  v < chan_bound form ->
   forallb (fun b => plain b && negb (b =? 47)) (chan form upper v) = true
   /\ match form with
-     | Hash2 => hex_value (chan form upper v) 0 = Some v /\ length (chan form upper v) = 2%nat
-     | _ => parse_component (chan form upper v) = Some v
+     | Hash2 => hex_value (chan form upper v) 0 = Some v /\ scale8 Hash2 v = v /\ length (chan form upper v) = 2%nat
+     | _ => parse_component (chan form upper v) = Some (scale8 form v)
      end.
 Proof.
-  intros Hv H17. pose proof chan_sweep as H. rewrite forallb_forall in H.
+  intros Hv. pose proof chan_sweep as H. rewrite forallb_forall in H.
   assert (Hf : In form [Rgb1; Rgb2; Rgb3; Rgb4; Hash2]) by (destruct form; cbn; tauto).
   specialize (H form Hf). cbv beta in H. rewrite forallb_forall in H.
   assert (Hu : In upper [true; false]) by (destruct upper; cbn; tauto). specialize (H upper Hu). cbv beta in H.
-  pose proof (sweep1_sound 256 _ H v Hv) as Hs. unfold chan_ok in Hs.
-  apply orb_true_iff in Hs. destruct Hs as [Hs|Hs].
-  - destruct form; try discriminate. specialize (H17 eq_refl). rewrite H17 in Hs. discriminate.
-  - apply andb_true_iff in Hs. destruct Hs as [H1 H2]. split; [exact H1|].
-    destruct form.
-    + destruct (parse_component _); [apply N.eqb_eq in H2; subst; reflexivity| discriminate].
-    + destruct (parse_component _); [apply N.eqb_eq in H2; subst; reflexivity| discriminate].
-    + destruct (parse_component _); [apply N.eqb_eq in H2; subst; reflexivity| discriminate].
-    + destruct (parse_component _); [apply N.eqb_eq in H2; subst; reflexivity| discriminate].
-    + apply andb_true_iff in H2. destruct H2 as [H2 H3]. apply Nat.eqb_eq in H3.
-      destruct (hex_value _ 0); [apply N.eqb_eq in H2; subst; split; [reflexivity| exact H3]| discriminate].
+  pose proof (chan_bound_le form) as Hb.
+  pose proof (sweep_pow_sound 16 0 _ H v ltac:(lia) ltac:(change (0 + 2 ^ N.of_nat 16) with 65536; lia)) as Hs.
+  unfold chan_ok in Hs. replace (v <? chan_bound form) with true in Hs by lia. cbn [negb orb] in Hs.
+  apply andb_true_iff in Hs. destruct Hs as [H1 H2]. split; [exact H1|].
+  destruct form.
+  + destruct (parse_component _); [apply N.eqb_eq in H2; subst; reflexivity| discriminate].
+  + destruct (parse_component _); [apply N.eqb_eq in H2; subst; reflexivity| discriminate].
+  + destruct (parse_component _); [apply N.eqb_eq in H2; subst; reflexivity| discriminate].
+  + destruct (parse_component _); [apply N.eqb_eq in H2; subst; reflexivity| discriminate].
+  + apply andb_true_iff in H2. destruct H2 as [H2 H3]. apply Nat.eqb_eq in H3.
+    destruct (hex_value _ 0); [|discriminate]. apply andb_true_iff in H2. destruct H2 as [H2 H4].
+    apply N.eqb_eq in H2, H4. subst. auto.
 Qed.
 
 Lemma forallb_and {A} (f g : A -> bool) l :
@@ -98,17 +103,17 @@ Qed.
 Lemma forallb_app_intro {A} (f : A -> bool) a b : forallb f a = true -> forallb f b = true -> forallb f (a ++ b) = true.
 Proof. intros. rewrite forallb_app. rewrite H, H0. reflexivity. Qed.
 
-(* the colour specification: plain bytes, and parse_color gives the colour back *)
+(* the colour specification: plain bytes, and parse_color gives the scaled colour *)
 Lemma color_spec_ok r g b form upper :
-  r < 256 -> g < 256 -> b < 256 -> (form = Rgb1 -> r mod 17 = 0 /\ g mod 17 = 0 /\ b mod 17 = 0) ->
-  forallb plain (color_spec (RGBA r g b 255) form upper) = true
-  /\ color_spec (RGBA r g b 255) form upper <> []
-  /\ parse_color (color_spec (RGBA r g b 255) form upper) = Some (RGBA r g b 255).
+  r < chan_bound form -> g < chan_bound form -> b < chan_bound form ->
+  forallb plain (color_spec r g b form upper) = true
+  /\ color_spec r g b form upper <> []
+  /\ parse_color (color_spec r g b form upper) = Some (RGBA (scale8 form r) (scale8 form g) (scale8 form b) 255).
 Proof.
-  intros Hr Hg Hb H17.
-  destruct (chan_spec form upper r Hr ltac:(intros E; apply H17, E)) as [Pr Vr].
-  destruct (chan_spec form upper g Hg ltac:(intros E; apply H17, E)) as [Pg Vg].
-  destruct (chan_spec form upper b Hb ltac:(intros E; apply H17, E)) as [Pb Vb].
+  intros Hr Hg Hb.
+  destruct (chan_spec form upper r Hr) as [Pr Vr].
+  destruct (chan_spec form upper g Hg) as [Pg Vg].
+  destruct (chan_spec form upper b Hb) as [Pb Vb].
   destruct (forallb_and _ _ _ Pr) as [Pr1 Pr2]. destruct (forallb_and _ _ _ Pg) as [Pg1 Pg2].
   destruct (forallb_and _ _ _ Pb) as [Pb1 Pb2].
   pose proof (not_in_of_forallb 47 _ Pr2) as Nr. pose proof (not_in_of_forallb 47 _ Pg2) as Ng.
@@ -117,7 +122,7 @@ Proof.
   assert (Hrgb : form <> Hash2 ->
     forallb plain ([114; 103; 98; 58] ++ chan form upper r ++ [47] ++ chan form upper g ++ [47] ++ chan form upper b) = true
     /\ parse_color ([114; 103; 98; 58] ++ chan form upper r ++ [47] ++ chan form upper g ++ [47] ++ chan form upper b)
-       = Some (RGBA r g b 255)).
+       = Some (RGBA (scale8 form r) (scale8 form g) (scale8 form b) 255)).
   { intros Hf. split.
     - repeat apply forallb_app_intro; try assumption; reflexivity.
     - unfold parse_color.
@@ -130,7 +135,7 @@ Proof.
       destruct form; try (exfalso; apply Hf; reflexivity); rewrite Vr, Vg, Vb; reflexivity. }
   destruct form; try (destruct (Hrgb ltac:(discriminate)) as [H1 H2]; split; [exact H1| split; [discriminate| exact H2]]).
   (* #rrggbb *)
-  destruct Vr as [Vr Lr], Vg as [Vg Lg], Vb as [Vb Lb].
+  destruct Vr as (Vr & Sr & Lr), Vg as (Vg & Sg & Lg), Vb as (Vb & Sb & Lb). rewrite Sr, Sg, Sb.
   destruct (chan Hash2 upper r) as [|r1 [|r2 [|? ?]]] eqn:Er; try discriminate.
   destruct (chan Hash2 upper g) as [|g1 [|g2 [|? ?]]] eqn:Eg; try discriminate.
   destruct (chan Hash2 upper b) as [|b1 [|b2 [|? ?]]] eqn:Eb; try discriminate.
@@ -145,22 +150,20 @@ Proof.
     unfold parse_hash. rewrite Vr, Vg, Vb. reflexivity.
 Qed.
 
-Theorem single_color name c form upper e :
-  wf decmode_all prod_key_table (RColor name c form upper e) = true -> single (RColor name c form upper e).
+Theorem single_color name r g b form upper e :
+  wf decmode_all prod_key_table (RColor name r g b form upper e) = true -> single (RColor name r g b form upper e).
 Proof.
-  destruct c as [r g b a]. cbn [wf]. intros Hwf. rewrite !andb_true_iff in Hwf.
-  destruct Hwf as [[[[[Hr Hg] Hb] Ha] Hname] H17]. apply N.eqb_eq in Ha. subst a.
-  assert (H17' : form = Rgb1 -> r mod 17 = 0 /\ g mod 17 = 0 /\ b mod 17 = 0).
-  { intros ->. rewrite !andb_true_iff in H17. lia. }
-  destruct (color_spec_ok r g b form upper ltac:(lia) ltac:(lia) ltac:(lia) H17') as (Hplain & Hne & Hparse).
-  set (spec := color_spec (RGBA r g b 255) form upper) in *.
+  cbn [wf]. intros Hwf. rewrite !andb_true_iff in Hwf.
+  destruct Hwf as [[[Hr Hg] Hb] Hname].
+  destruct (color_spec_ok r g b form upper ltac:(lia) ltac:(lia) ltac:(lia)) as (Hplain & Hne & Hparse).
+  set (spec := color_spec r g b form upper) in *.
   set (endb := match e with EndST => ST | EndBEL => [7] end).
   (* the name field and what follows the first ';' *)
   set (idb := match name with TFg => [49; 48] | TBg => [49; 49] | TPalette _ => [52] end).
   set (tail := match name with TPalette i => digits i ++ [59] ++ spec | _ => spec end).
   unfold single, prod_denote, denote. cbn [print].
   replace ([27; 93] ++ match name with TFg => [49; 48] | TBg => [49; 49] | TPalette i => [52; 59] ++ digits i end
-           ++ [59] ++ color_spec (RGBA r g b 255) form upper ++ match e with EndST => ST | EndBEL => [7] end)
+           ++ [59] ++ color_spec r g b form upper ++ match e with EndST => ST | EndBEL => [7] end)
     with ([27; 93] ++ (idb ++ [59] ++ tail) ++ endb)
     by (unfold idb, tail, endb, spec; destruct name; list_eq).
   assert (Htail : forallb (fun x => plain x || (x =? 59)) tail = true /\ tail <> []).
